@@ -97,3 +97,53 @@ func (r *Replica) VerifFollowStep(ctx context.Context, f *os.File, outputPath st
 	}
 	return lastTXID, nil
 }
+
+// verifFaultyStaging wraps a staging file and fails one chosen operation.
+type verifFaultyStaging struct {
+	ltxStagingFile
+	mode string
+	err  error
+}
+
+func (f *verifFaultyStaging) Write(p []byte) (int, error) {
+	if f.mode == "write" {
+		f.mode = ""
+		return 0, f.err
+	}
+	return f.ltxStagingFile.Write(p)
+}
+
+func (f *verifFaultyStaging) Sync() error {
+	if f.mode == "sync" {
+		f.mode = ""
+		return f.err
+	}
+	return f.ltxStagingFile.Sync()
+}
+
+// VerifFailNextLTXStaging makes the next local LTX staging file (after skip
+// untouched ones) fail once with
+// err: mode "open" fails the open itself, "write" its first Write, "sync" its
+// Sync. The default opener is restored as soon as the fault has been armed on
+// a file. It uses the same seam as the repository's own ENOSPC tests. The
+// returned function reports whether the fault is still waiting for a file.
+func (db *DB) VerifFailNextLTXStaging(mode string, skip int, err error) (armed func() bool) {
+	pending := true
+	db.openLTXFile = func(name string, flag int, perm os.FileMode) (ltxStagingFile, error) {
+		if skip > 0 {
+			skip--
+			return defaultOpenLTXFile(name, flag, perm)
+		}
+		db.openLTXFile = defaultOpenLTXFile
+		pending = false
+		if mode == "open" {
+			return nil, err
+		}
+		f, oerr := defaultOpenLTXFile(name, flag, perm)
+		if oerr != nil {
+			return nil, oerr
+		}
+		return &verifFaultyStaging{ltxStagingFile: f, mode: mode, err: err}, nil
+	}
+	return func() bool { return pending }
+}
